@@ -105,8 +105,9 @@ def spec_text(f, st, head=True, semi=True, bound=lambda k: str(k)):
 
 
 # ------------------------------------------------------------------------------- model query
-def model_parse(texts, unit="s", consts=()):
-    cs = ",".join("%s=%s" % (k, v) for k, v in consts)
+def model_parse(texts, unit="s", consts=(), variables=("a", "b", "c")):
+    """`variables`: the variables declared through the API (all float) - the model needs them for `x.field` only."""
+    cs = ",".join(["%s=%s" % (k, v) for k, v in consts] + ["@%s=float" % v for v in variables])
     lines = ["parse | %s | %s | %s" % (unit, cs, t.encode("utf-8").hex()) for t in texts]
     res = []
     for o in common.driver_run(lines):
@@ -190,6 +191,8 @@ def name_of(e, consts, subspecs):
             return str(float(to_number(consts[x])))
         if x in subspecs:
             return subspecs[x]
+        if x.endswith(".") and x.count(".") == 1:
+            return x[:-1]                   # `x.`: the empty field; the node prints as the variable
         return x
     if k == "lit":
         return str(float(to_number(e[1])))
